@@ -1,0 +1,52 @@
+//go:build verif
+
+// Contracts for package hash (kvc). Comment-only file.
+package hash
+
+//@ -- Coverage contracts: every byte of the block is consumed exactly once, in
+//@ -- order (n advances by the number of bytes read and ends at len(data)); the
+//@ -- hashers have no mutable state. The arithmetic of the digest is pinned by the
+//@ -- round helpers below (bit-vector mode) and the C10 constant check.
+//@ func (*XXHash32) Hash
+//@   mode int
+//@   props C02 C10
+//@   atreturn n == end && end == len(data)                                      #every-byte-consumed
+//@   modifies nothing
+//@   loop 1 invariant 0 <= n && n <= end16 + 16 && end16 == end - 16 && end == len(data) && n % 16 == 0
+//@   loop 1 decreases end - n
+//@   loop 2 invariant 0 <= n && n <= end && end == len(data)
+//@   loop 2 decreases end - n
+//@   loop 3 invariant 0 <= n && n <= end && end == len(data)
+//@   loop 3 decreases end - n
+
+//@ func (*XXHash64) Hash
+//@   mode int
+//@   props C02 C10
+//@   atreturn n == end && end == len(data)                                      #every-byte-consumed
+//@   modifies nothing
+//@   loop 1 invariant 0 <= n && n <= end32 + 32 && end32 == end - 32 && end == len(data) && n % 32 == 0
+//@   loop 1 decreases end - n
+//@   loop 2 invariant 0 <= n && n <= end && end == len(data)
+//@   loop 2 decreases end - n
+//@   loop 3 invariant 0 <= n && n <= end && end == len(data)
+//@   loop 3 decreases end - n
+//@   loop 4 invariant 0 <= n && n <= end && end == len(data)
+//@   loop 4 decreases end - n
+
+//@ func xxHash32Round
+//@   mode bv
+//@   props C10 C02
+//@   ensures result == (((acc + val*2246822519) << 13) | ((acc + val*2246822519) >> 19)) * 2654435761     #pinned-formula
+//@   modifies nothing
+
+//@ func xxHash64Round
+//@   mode bv
+//@   props C10 C02
+//@   ensures result == (((acc + val*14029467366897019727) << 31) | ((acc + val*14029467366897019727) >> 33)) * 11400714785074694791     #pinned-formula
+//@   modifies nothing
+
+//@ func xxHash64MergeRound
+//@   mode bv
+//@   props C10 C02
+//@   ensures result == (acc ^ ((((val*14029467366897019727) << 31) | ((val*14029467366897019727) >> 33)) * 11400714785074694791)) * 11400714785074694791 + 9650029242287828579     #pinned-formula
+//@   modifies nothing
